@@ -596,9 +596,10 @@ class Chain(Sub):
 
 BOPS = [['setvar', 'xv', 11], ['setvar', 'TRUE', 'hijack'], ['setfn', 'XF'], ['setfn', 'SUM'], ['oncell'], ['onvar'],
         ['onfn'], ['parse', 'xv+XF(1)+A1'], ['parse', 'nosuch+'], ['once'], ['parse', 'SUM(B2:A1)+SUM($C$3:A2)+C3'],
-        ['parse', 'ABS(TRUE)&SUM(TRUE)&MAXA(FALSE)&(1+2)']]
+        ['parse', 'ABS(TRUE)&SUM(TRUE)&MAXA(FALSE)&(1+2)'], ['hosterr']]
 PROBES = ['xv', 'XF(1)', 'A1', 'SUM(1,2)', 'TRUE', 'nosuchvar', 'A1:B2', 'IF(TRUE,1,2)', 'B2*2', 'C3-A2', 'SUM(B2:C3)',
-          'ABS(1.0)&"|"&SUM(1.0)&"|"&MAXA(2/2)&"|"&(0.0+1)&"|"&(3.0*1)']
+          'ABS(1.0)&"|"&SUM(1.0)&"|"&MAXA(2/2)&"|"&(0.0+1)&"|"&(3.0*1)',
+          'ISNA(NA())&ERROR.TYPE(1/0)&IFNA(NA(),5)&ISERR(SUM(1,1/0))&IFERROR(MAX(NA()),"t")']
 
 
 def bindings_case(payload):
@@ -635,7 +636,7 @@ def new_b(env):
 class Bindings(Sub):
     name = 'c03.bindings'
     rule = ('every sequence of <= k binding operations (set_variable, set_function incl. shadowing a built-in, listeners on '
-            'three events, parses) on parser A, created before or after parser B - or B a copy.deepcopy fork of A taken before the operations: every probe on B equals the probe on a '
+            'three events, parses, host-made error values) on parser A, created before or after parser B - or B a copy.deepcopy fork of A taken before the operations: every probe on B equals the probe on a '
             'parser that never had a sibling, A\'s listeners are never invoked by B, and A still sees its own bindings; '
             'non-trivial = all')
     min_cases = 100
@@ -692,6 +693,11 @@ class Bindings(Sub):
                 A.once('callCellValue', lambda cell, setter: (calls.append('once'), setter(8)))
             elif op[0] == 'parse':
                 A.parse(op[1])
+            elif op[0] == 'hosterr':
+                # the host of parser A answers with error values of its own making (a variable, a function result)
+                A.set_variable('xe', env.err.XLError('#N/A'))
+                A.set_function('XE', lambda *a: env.err.XLError('#DIV/0!'))
+                A.parse('IFNA(xe,1)+XE()')
         del calls[:]
         for t, want in zip(PROBES, fresh):
             got = env.out(B.parse(t))
